@@ -103,6 +103,22 @@ fn gen_text(thorough: bool, rng: &mut Rng, out: &mut Vec<String>) {
         }
         for (pre, post) in [(" ", ""), ("", " "), ("", "\n"), ("0x", ""), ("", "00"), ("0", "")] { out.push(format!("c19.hexdec {}", hexd(format!("{}{}{}", pre, enc, post).as_bytes()))); }
     }
+    // strings of EXACTLY 64 bytes in which a multi-byte character starts at every offset (a decoder that slices the text two
+    // bytes at a time must not cut a character), and sign characters that integer parsers accept
+    for (ch, w) in [('\u{e9}', 2usize), ('\u{20ac}', 3), ('\u{1f600}', 4)] {
+        for k in 0..=(64 - w) {
+            let mut t = String::new();
+            for i in 0..k { t.push(char::from_digit((i % 16) as u32, 16).unwrap()); }
+            t.push(ch);
+            while t.len() < 64 { t.push('a'); }
+            out.push(format!("c19.hexdec {}", hexd(t.as_bytes())));
+        }
+    }
+    for sign in ['+', '-', '_'] { for k in [0usize, 1, 2, 31, 62, 63] {
+        let mut t: Vec<char> = "0123456789abcdef".repeat(4).chars().collect(); t[k] = sign;
+        let t: String = t.into_iter().collect();
+        out.push(format!("c19.hexdec {}", hexd(t.as_bytes())));
+    } }
     for len in (0..=70usize).chain(126..=130) {
         let s: String = (0..len).map(|_| *rng.pick(&['0', '1', '9', 'a', 'f', 'A', 'F', '7'])).collect();
         out.push(format!("c19.hexdec {}", hexd(s.as_bytes())));
